@@ -520,3 +520,31 @@ Theorem C11_flatten_help_shape_builds : forall c : UsageModel.hcmd, HelpFlattenS
     /\ map HelpFlattenShape.nh S0 = map HelpFlattenShape.nh (UsageModel.hc_subs P).
 Proof. exact HelpFlattenLevel.shape_builds. Qed.
 Print Assumptions C11_flatten_help_shape_builds.
+
+(** the finding, exactly: for an unbuilt level [c] whose help subcommand is not disabled, flattened (the setting and a
+    visible subcommand), the usage blocks of its two builds -- lazy: the parser entered the level earlier; eager: built
+    for the rendering -- are the SAME lines followed by the line of the generated [help] subcommand, which reads
+    [.. help "[COMMAND]..."] in the first and [.. help "[COMMAND]"] in the second.  The classifier of vp/props/c11.py
+    ([flatten_help_shape]) normalises exactly this difference. *)
+Theorem C11_flatten_help_shape_level : forall f (c : UsageModel.hcmd) ll le,
+  HelpFlattenShape.help_sub_off c = false ->
+  HelpFlatten.flat_cond (HelpFlatten.h_build_self_x false c) = true ->
+  HelpFlatten.usage_lines (S f) (HelpFlatten.h_build_self_x false c) = Some ll ->
+  HelpFlatten.usage_lines (S f) (HelpFlatten.h_build_self_x true c) = Some le ->
+  exists common mid, HelpFlatten.h_mid_string (HelpFlatten.h_build_self_x false c) = Some mid
+    /\ ll = common ++ [[UsageModel.bin_name_fallback (HelpFlatten.h_build_self_x false c) ++ mid ++ UsageModel.s_help; HelpFlattenShape.s_cmd_lazy]]
+    /\ le = common ++ [[UsageModel.bin_name_fallback (HelpFlatten.h_build_self_x false c) ++ mid ++ UsageModel.s_help; HelpFlattenShape.s_cmd_exp]].
+Proof. exact HelpFlattenLevel.flatten_help_shape_level. Qed.
+Print Assumptions C11_flatten_help_shape_level.
+
+Theorem C11_flatten_help_shape_level_satisfiable :
+  HelpFlattenShape.help_sub_off HelpFlattenShape.sh_on = false
+  /\ HelpFlatten.flat_cond (HelpFlatten.h_build_self_x false HelpFlattenShape.sh_on) = true
+  /\ option_map (map HelpFlatten.line_text) (HelpFlatten.usage_lines 2 (HelpFlatten.h_build_self_x false HelpFlattenShape.sh_on))
+     = Some [[112%N]; [112%N; 32%N; 97%N];
+             [112%N; 32%N] ++ UsageModel.s_help ++ [32%N] ++ HelpFlattenShape.s_cmd_lazy]
+  /\ option_map (map HelpFlatten.line_text) (HelpFlatten.usage_lines 2 (HelpFlatten.h_build_self_x true HelpFlattenShape.sh_on))
+     = Some [[112%N]; [112%N; 32%N; 97%N];
+             [112%N; 32%N] ++ UsageModel.s_help ++ [32%N] ++ HelpFlattenShape.s_cmd_exp].
+Proof. exact HelpFlattenLevel.shape_level_satisfiable. Qed.
+Print Assumptions C11_flatten_help_shape_level_satisfiable.
